@@ -571,6 +571,67 @@ def run_spec(spec):
         return None
     chk("operator-reuse", c_history)
 
+    # expectation values of non-Hermitian operators whose real and imaginary parts differ by many orders of magnitude
+    # (offset E0 * identity + small non-Hermitian part, and purely imaginary values), on the complex state; real and
+    # imaginary parts are compared separately, each relative to its own dense magnitude (floor 1e-12 * |value|)
+    def c_scales():
+        nonlocal nchk
+        kinds = dict(L.spin_like_dofs(spec))
+        sp = [d for d, k in kinds.items() if k in ("spin", "elec")]
+        up = lambda d: ["sigma_-" if kinds[d] == "spin" else r"a^\dagger", d]       # raises the quantum number
+        dn = lambda d: ["sigma_+" if kinds[d] == "spin" else "a", d]
+        two = L.qn_size(spec) == 2
+        pair = None
+        for x in sp:
+            for y in sp:
+                if x != y and (not two or kinds[x] == kinds[y]):
+                    pair = (x, y)
+                    break
+            if pair:
+                break
+        if pair is not None:
+            A = [up(pair[0]), dn(pair[1])]
+            At = [dn(pair[0]), up(pair[1])]
+        elif sp and not spec.get("qn"):
+            A, At = [up(sp[0])], [dn(sp[0])]
+        else:
+            return None
+        anyd = sorted(kinds)[0]
+        v = dac.ravel()
+        bad = []
+        cases = [(E0, g, False) for E0 in (0.0, 1.0, 1e2, 1e4) for g in (1e-3, 1e-6)] + [(0.0, 1.0, True), (0.0, 1e-6, True)]
+        for E0, g, anti in cases:
+            tms = [{"f": g, "ops": A}]
+            if anti:
+                tms.append({"f": -g, "ops": At})            # A - A^T: real antisymmetric, purely imaginary expectation values
+            if E0:
+                tms.append({"f": E0, "ops": [["I", anyd]]})
+            Od = dense_operator(forder, tms)
+            ref = complex(v.conj() @ (Od @ v))
+            op = TTNO(bt, L.build_terms(spec, tms))
+            for name, f in (("expectation", lambda: ac.expectation(op)), ("expectation1", lambda: ac.expectation1(op)),
+                            ("expectation(OpSum)", lambda: ac.expectation(L.build_terms(spec, tms) if len(tms) > 1 else L.build_terms(spec, tms)[0]))):
+                try:
+                    val = complex(f())
+                except Exception:
+                    if name == "expectation(OpSum)":
+                        continue                                # list input is not accepted by every version
+                    raise
+                nchk += 1
+                # floors: rounding of the parts that contribute (the value itself may vanish by cancellation)
+                nv = float(np.vdot(v, v).real)
+                floor_re = 1e-12 * (E0 + 2 * g) * nv
+                floor_im = 1e-12 * 2 * g * nv + 1e-15 * E0 * nv
+                # TTNS.expectation returns a plain float when |Im| <= 1e-8 (np.isclose(imag, 0), absolute): accepted
+                im_dropped = (val.imag == 0 and abs(ref.imag) <= 1e-8)
+                if abs(val.real - ref.real) > 1e-9 * abs(ref.real) + floor_re or \
+                        (abs(val.imag - ref.imag) > 1e-9 * abs(ref.imag) + floor_im and not im_dropped):
+                    bad.append("%s E0=%g g=%g%s: %r, dense %r" % (name, E0, g, " (antisymmetric)" if anti else "", val, ref))
+        if bad:
+            return False, "; ".join(bad[:3])
+        return None
+    chk("expectation-scales", c_scales)
+
     def c_inplace():
         nonlocal nchk
         n, bad = inplace_rdm_check(ac)
